@@ -21,6 +21,24 @@ template <bool B> struct tester2
         return xtl::mpl::static_if<B == false>([&](auto /*self*/) -> int& { return input; }, [&](auto /*self*/) -> int& { input++; return input; });
     }
 };
+#ifdef NOCOPY_FORM
+// round 3 (advisory): static_if takes its callables by const reference, so a functor that can be neither copied nor moved is accepted
+struct pinned
+{
+    pinned() = default;
+    pinned(const pinned&) = delete;
+    template <class S> int operator()(S) const { return 1; }
+};
+int nocopy()
+{
+    pinned a, b;
+#ifdef TAG_FORM
+    return xtl::mpl::static_if<true>(a, b) + xtl::mpl::static_if(std::false_type(), a, b);
+#else
+    return xtl::mpl::static_if<true>(a, b) + xtl::mpl::static_if<false>(a, b);
+#endif
+}
+#endif
 int main()
 {
     tester2<true> t;
